@@ -134,8 +134,12 @@ CHECKS = {
               "snapshots (files, symlinks, empty and nested directories, file<->directory replacements) that the documented order is "
               "complete and safe and exports the pairs; every pair plus seeded random larger pairs is compared with the real DirDiff "
               "and TLC judges the recorded node list (exact set with status and entries, empty iff equal, the real order drives the "
-              "applier to the new tree, get() agrees)."),
-        technique="TLA+ diff/applier specification checked by TLC + trace validation of real DirDiff results (all small pairs, random larger pairs)",
+              "applier to the new tree, get() agrees). PackerPipeline.tla models the consumer of the ordering -- the packer life "
+              "cycle (pack, edit, update, refused calls; every diff node treated on its own) -- and TLC checks for every pair of "
+              "snapshots that the container ends as the mirror of the new directory with exactly the reported paths written; "
+              "histories of edits, pack and update calls on real containers (h5py.File, IH5Record) through the packer plugin group "
+              "are validated against that machine (Trace_Packer.tla)."),
+        technique="TLA+ diff/applier and packer life-cycle specifications checked by TLC + trace validation of real DirDiff results and of real pack/update histories on containers",
         design="4/C18"),
     "C19": dict(
         text=("DirHash.tla defines what a directory is for hashing (names, contents, resolved in-directory symlink targets, "
